@@ -55,7 +55,9 @@ static std::string check_opt(const Opt &o, const Model &m, const UserMaps &u, co
   for (int i = 0; i <= p.N; ++i) { bool opt = i == 0 ? (m.mask & 1) : i == p.N ? (m.mask & 16) : true; if (!opt) for (int d = 0; d < D; ++d) if (w1.spline.getSpacePoints()(i, d) != p.P(i, d)) return fmt("%s: unflagged waypoint %d moved", name, i); }
   return "";
 }
-static Opt *make_opt(const Model &m, const UserMaps &u) { (void)m; (void)u; return new Opt(); }
+// the canonical key also holds the PARAMETERS of the optimizer's own default maps (harness types): an assignment that writes the wrong
+// map object into default_time_map_ changes nothing else in the private state
+static void canon_add_defaults(Canon &c, const Opt &o) { c.vec(o.default_time_map_.prm); c.i(o.default_spatial_map_.mode); c.vec(o.default_spatial_map_.prm); }
 
 #if VPROP == 9
 struct World {
@@ -77,7 +79,7 @@ struct World {
     else if (op == 16) { std::swap(X, Y); std::swap(mx, my); }
     else if (op == 17) { Y->setSpatialMap(&u.sa); my.sm = 1; }
   }
-  std::string canon() const { Canon c; canon_add_opt(c, *X, false); c.i(mx.prob); c.i(mx.sm); c.i(Y ? 1 : 0); if (Y) { canon_add_opt(c, *Y, false); c.i(my.prob); c.i(my.sm); } return c.s; }
+  std::string canon() const { Canon c; canon_add_opt(c, *X, false); canon_add_defaults(c, *X); c.i(mx.prob); c.i(mx.sm); c.i(Y ? 1 : 0); if (Y) { canon_add_opt(c, *Y, false); canon_add_defaults(c, *Y); c.i(my.prob); c.i(my.sm); } return c.s; }
   std::string check(std::string &digest) { Canon dg; std::string m = check_opt(*X, mx, u, "X", dg); if (m.empty() && Y) m = check_opt(*Y, my, u, "Y", dg); digest = dg.s; return m; }
 };
 static const char *TAG = "optimizer reconfiguration";
@@ -105,7 +107,7 @@ struct World {
     else if (op == 13) { B->setOptimizationFlags(flags_of(0xff)); mb.mask = 0xff; }
     else if (op == 14) { u->ta.prm[0] = u->ta.prm[0] == 0.125 ? 0.1875 : 0.125; u->sa.prm[0] = u->sa.prm[0] == 1.5 ? 1.75 : 1.5; }
   }
-  std::string canon() const { Canon c; canon_add_opt(c, *A, true); c.i(ma.prob); c.i(ma.tm); c.i(ma.sm); c.i(B ? 1 : 0); if (B) { canon_add_opt(c, *B, true); c.i(mb.prob); c.i(mb.tm); c.i(mb.sm); } c.d(u->ta.prm[0]); return c.s; }
+  std::string canon() const { Canon c; canon_add_opt(c, *A, true); canon_add_defaults(c, *A); c.i(ma.prob); c.i(ma.tm); c.i(ma.sm); c.i(B ? 1 : 0); if (B) { canon_add_opt(c, *B, true); canon_add_defaults(c, *B); c.i(mb.prob); c.i(mb.tm); c.i(mb.sm); } c.d(u->ta.prm[0]); return c.s; }
   std::string roles(const Opt &o, const Model &m, const char *name, const Opt *other) const {
     const VTimeMap *wt = m.tm ? &u->ta : &o.default_time_map_; const VMap<D> *wsm = m.sm ? &u->sa : &o.default_spatial_map_;
     if (o.active_time_map_ != wt) return fmt("%s: active time map is not %s", name, m.tm ? "the user map" : "its OWN default map");
